@@ -1,4 +1,5 @@
 import LassoProofs.C02
+import LassoProofs.Lemmas.Grow
 /-
   C08 — the memory limit is a hard cap and memory accounting is exact (sequential use).
 
@@ -115,5 +116,19 @@ example : storeRemainingUnrepaired
 example : Arena.store
     { cur := { id := 0, cap := 10, data := [1,2,3,4,5,6,7,8] }, full := [], bucketCap := 10, usage := 10, max := 15, nextId := 1 }
     [1,2,3,4,5,6] = .err .memoryLimit := by decide
+
+/-! ### Tie to the source: the growth logic of both arenas is regenerated from `store_str`
+
+`Extracted.arenaGrow` / `Extracted.lockfreeGrow` are the decision trees the extractor translates from
+the statements of `store_str` after the search for a block with room (conditions, amount claimed from
+the budget, block size and how it is built, stored capacity, placement).  For every arena state and
+every string the model does exactly what the tree says. -/
+theorem growth_logic_is_source :
+    (∀ (a : Arena) (s : Bytes), s.length ≠ 0 → ¬ s.length ≤ a.cur.free →
+      (Grow.eval (a.env s) Extracted.arenaGrow).map (a.applyOutcome s) = some (a.store s)) ∧
+    (∀ (a : LArena) (s : Bytes),
+      (Grow.eval (a.env s) Extracted.lockfreeGrow).map (a.applyOutcome s) = some (a.grow s)) ∧
+    Extracted.arenaAllocateIsCheckThenAdd = true :=
+  ⟨arena_store_is_source_tree, larena_grow_is_source_tree, arena_allocate_shape⟩
 
 end Lasso.C08
